@@ -570,6 +570,115 @@ pub fn case_program(bytes: &[u8], ctx: &mut Ctx) -> CaseResult {
     Ok(())
 }
 
+// ---------------------------------------------------------------------------
+// "every fork configuration", reached the way the mempool reaches it: by height.
+// `get_conditions_from_spendbundle(.., prev_tx_height, constants)` maps a height
+// to flags. The constants document each fork height as "the first block where
+// ... is valid", so a fork is active AT its height: the cost reported at height H
+// has to be the cost under the flag set that is in force well above H, and at
+// H - 1 the cost under the set in force well below. Checked for each of the three
+// fork heights set to several values while the other two are out of reach.
+
+const FORK_HEIGHTS: [u32; 5] = [1, 2, 1000, 5_496_000, 0x7fff_ffff];
+
+fn enum_forks(_tier: Tier, shard: usize, n: usize, emit: &mut dyn FnMut(&[u8]) -> bool) {
+    let mut idx = 0usize;
+    for fork in 0..3u8 {
+        for hi in 0..FORK_HEIGHTS.len() as u8 {
+            for delta in 0..3u8 {
+                for bundle in 0..3u8 {
+                    let mine = idx % n == shard;
+                    idx += 1;
+                    if mine && !emit(&[fork, hi, delta, bundle]) {
+                        return;
+                    }
+                }
+            }
+        }
+    }
+}
+
+/// bytes = [fork, height index, 0: H-1 / 1: H / 2: H+1, bundle]
+pub fn case_forks(bytes: &[u8], ctx: &mut Ctx) -> CaseResult {
+    use chia_consensus::spendbundle_conditions::get_conditions_from_spendbundle;
+    use chia_consensus::spendbundle_validation::get_flags_for_height_and_constants;
+    let mut s = Src::new(bytes);
+    let (fork, hi, delta, bundle) = (s.u8() % 3, s.u8() as usize % FORK_HEIGHTS.len(), s.u8() % 3, s.u8() % 3);
+    let h0 = FORK_HEIGHTS[hi];
+    let mut c = TEST_CONSTANTS.clone();
+    c.hard_fork2_height = u32::MAX;
+    c.soft_fork8_height = u32::MAX;
+    c.soft_fork9_height = u32::MAX;
+    let name = match fork {
+        0 => {
+            c.hard_fork2_height = h0;
+            "hard_fork2_height"
+        }
+        1 => {
+            c.soft_fork8_height = h0;
+            "soft_fork8_height"
+        }
+        _ => {
+            c.soft_fork9_height = h0;
+            "soft_fork9_height"
+        }
+    };
+    let h = match delta {
+        0 => h0 - 1,
+        1 => h0,
+        _ => h0 + 1,
+    };
+    // reference configurations: far below (height 0 is below every H used) and
+    // far above (H + 1000; the other two forks sit at u32::MAX, out of reach)
+    let below = get_flags_for_height_and_constants(0, &c);
+    let above = get_flags_for_height_and_constants(h0 + 1000, &c);
+    vensure!(below != above, "C04:forks:harness", "fork {name} changes no flag");
+    let got = get_flags_for_height_and_constants(h, &c);
+    let want = if delta == 0 { below } else { above };
+    vensure!(
+        got == want,
+        format!("C04:forks:{name}:flags-at-boundary"),
+        "{name} = {h0}: flags at height {h} are {got:?}; the configuration in force {} the fork is {want:?} (the fork height is documented as the first height at which the fork is valid)",
+        if delta == 0 { "before" } else { "from" }
+    );
+    // the cost reported through the height-based entry point
+    let mut t = Tree::new();
+    let ph = condgen::tag_puzzle_hashes()[0];
+    let pz = condgen::tagged_identity(&mut t, 1);
+    let mk = |t: &mut Tree, op: u8, args: &[&[u8]]| -> Tid {
+        let mut items = vec![t.atom(&[op])];
+        for a in args {
+            items.push(t.atom(a));
+        }
+        t.list(&items)
+    };
+    let conds = match bundle {
+        0 => vec![mk(&mut t, 73, &[&[0x03, 0xe8]])],
+        1 => vec![mk(&mut t, 51, &[&[0x6c; 32], &[0x64]]), mk(&mut t, 60, &[b"x"]), mk(&mut t, 73, &[&[0x03, 0xe8]])],
+        _ => vec![mk(&mut t, 1, &[b"remark"]), mk(&mut t, 52, &[&[1]]), mk(&mut t, 70 + 2, &[&ph])],
+    };
+    let sol = t.list(&conds);
+    let cs = proglevel::coin_spend(&t, [0x44; 32], ph, 1000, pz, sol);
+    let sb = SpendBundle::new(vec![cs], Signature::default());
+    let mut a1 = Allocator::new();
+    let by_height = get_conditions_from_spendbundle(&mut a1, &sb, u64::MAX / 4, h, &c).map(|x| (x.cost, x.condition_cost, x.execution_cost));
+    let mut a2 = Allocator::new();
+    let flags = want | chia_consensus::flags::MEMPOOL_MODE | ConsensusFlags::DONT_VALIDATE_SIGNATURE;
+    let by_flags = run_spendbundle(&mut a2, &sb, u64::MAX / 4, flags, &c).map(|(x, _)| (x.cost, x.condition_cost, x.execution_cost));
+    vensure!(
+        format!("{by_height:?}") == format!("{by_flags:?}"),
+        format!("C04:forks:{name}:cost-at-boundary"),
+        "{name} = {h0}, bundle {bundle}: get_conditions_from_spendbundle at height {h} reports (cost, condition, execution) = {by_height:?}; under the fork configuration in force there run_spendbundle reports {by_flags:?}"
+    );
+    ctx.label(format!("forks:{name}"));
+    ctx.label(["forks:height-below", "forks:height-at", "forks:height-above"][delta as usize]);
+    let mut f = Fnv::new();
+    f.write(bytes);
+    ctx.nontrivial(f.finish());
+    ctx.render(|| format!("{name} = {h0}, height {h}, bundle {bundle}: flags {got:?}, (cost, condition, execution) = {by_height:?}"));
+    Ok(())
+}
+
 pub fn property() -> Property {
     Property {
         id: "C04",
@@ -605,6 +714,15 @@ pub fn property() -> Property {
                 inflight: false,
                 min_nontrivial: 5_000,
                 required_labels: &["rbg2:accepted", "rbg:accepted", "run_spendbundle:accepted", "pricing:interned", "pricing:bytes", "limit:below-checked", "limit:prefix-sums-checked"],
+            },
+            SubCheck {
+                name: "fork-heights",
+                about: "the height-based entry point get_conditions_from_spendbundle at H-1, H, H+1 for each fork height H in {1, 2, 1000, 5496000, 2^31-1}: flags and reported cost equal those of the configuration in force before / from the fork",
+                source: Source::Enumerate { f: enum_forks, exhaustive: true },
+                run: case_forks,
+                inflight: false,
+                min_nontrivial: 100,
+                required_labels: &["forks:hard_fork2_height", "forks:soft_fork8_height", "forks:soft_fork9_height", "forks:height-at"],
             },
         ],
         death_is_violation: false,
